@@ -27,7 +27,7 @@ LEAN_MODULES = ["Clikit.Props.C13"]
 REQUIRED_THEOREMS = ["Clikit.Props.C13." + n for n in (
     "help_total", "help_complete", "help_names", "help_inherits", "help_hides", "help_width", "help_width_pages",
     "help_wrap_contract", "help_same_page", "help_same_page_partial", "help_same_page_facts", "help_same_page_default",
-    "dApp_same_page")]
+    "help_same_page_wired", "help_same_page_wired_decides", "dApp_same_page")]
 TECHNIQUE = ("Lean 4 theorems on a model of ApplicationHelp / CommandHelp / BlockLayout / LabelAlignment / "
              "LabeledParagraph / Paragraph and of the help resolver, parametric in textwrap.wrap (contract: every line fits "
              "the requested width), + differential correspondence of whole pages on generated configurations x widths x "
@@ -53,14 +53,21 @@ LEVEL_TEXT = ("Proved in Lean for EVERY configuration tree, terminal width and w
               "omitted name (resolve_help, help_parse_switch; summarised as help_same_page_facts); instantiated on a concrete "
               "default-configuration application (dApp_same_page). help_same_page_partial (any switch token, any wiring, under "
               "three explicit parser facts, statement help_same_page_full) is kept for non-default configurations. "
+              "help_same_page_wired: the same conclusion from hypotheses that are all evaluated by the model - wiredB app sw "
+              "(get_command('help') is the help command, every command of the tree declares the switch as a flag) and "
+              "headFreeB app path (the path does not start with a name of the help command); wiredB is decided on every real "
+              "tree of the correspondence (c13.wired) and answered true on all of them. "
               "The model is tied to the code by comparing whole pages on generated configurations.")
 LEVEL_NOTE = ("Trusted: Lean kernel + standard axioms; the hand-written page/layout/resolver/parser models (modelled, not verified; "
               "compared with the real pages on every generated case); textwrap.wrap, json.dumps, str.format, pastel as "
               "external engines (wrap: modelled + compared on every call; tags: only the tags the help pages emit). Labels are "
               "modelled by their visible text. help_same_page_default assumes the default wiring (HelpCmd / FlagOf on every "
-              "format of the tree) as hypotheses on the model tree; that the trees read from real DefaultApplicationConfig "
-              "applications satisfy them is not proved (the correspondence only compares the three spellings of help on "
-              "those trees with the real output).")
+              "format of the tree) as hypotheses on the model tree; these structural hypotheses are DECIDED BY THE MODEL ON "
+              "EVERY REAL TREE: the executable wiredB (Model/HelpWired.lean; sound by wiredB_sound, used by "
+              "help_same_page_wired) is evaluated by the driver entry c13.wired on the tree read from every generated "
+              "DefaultApplicationConfig application, for -h and --help, and compared with true - so that real default "
+              "applications satisfy the hypotheses is tested on every case, not proved for all configurations (a command "
+              "that re-declares its own option `help`/`-h` with a value, or a re-wired help command, would answer false).")
 RULE = ("gen_tree configurations (depth<=3, fan-out<=3, aliases, default/anonymous/hidden/disabled) extended with 0-3 "
         "arguments / 0-3 options of every kind, descriptions absent/short/long, defaults of every type, help texts; on the "
         "default application config; x widths (quick: 6 per configuration from 40..200 plus narrow ones around the minimum; "
@@ -483,8 +490,11 @@ def model_requests(case):
     for l in lines:
         tx.update(pc.texts_of(EMPTY_FMT, l))
     ints, floats = pc.conv_tables(tx)
+    # every case is built on DefaultApplicationConfig (build_app): the model also DECIDES, on the tree read from
+    # the real objects, the structural hypotheses of help_same_page_default / help_same_page_wired (c13.wired)
     return [{"m": "c13.all", "app": nodes, "width": case["width"], "paths": paths, "lines": lines,
-             "ints": ints, "floats": floats}]
+             "ints": ints, "floats": floats},
+            {"m": "c13.wired", "app": nodes}]
 
 
 def _page_view(res, outside):
@@ -521,7 +531,7 @@ def model_obs(case, answers):
     _, paths, _ = _model_input(case)
     app_v, app_out = _model_page(a["app"])
     cmd_v = [_model_page(p) for p in a["cmds"]]
-    out = {"app": app_v, "cmds": [v for (v, _) in cmd_v], "runs": []}
+    out = {"app": app_v, "cmds": [v for (v, _) in cmd_v], "runs": [], "wired": answers[1]}
     for t in a["targets"]:
         if "err" in t:
             out["runs"].append({"fails": True})
@@ -537,9 +547,16 @@ def model_obs(case, answers):
     return out
 
 
+WIRED = {"-h": True, "--help": True}
+
+
 def impl_view(case, obs):
     out = {"app": _page_view(obs["app"], obs["app"]["outside"]),
-           "cmds": [_page_view(r, r["outside"]) for (_, r) in obs["cmds"]], "runs": []}
+           "cmds": [_page_view(r, r["outside"]) for (_, r) in obs["cmds"]], "runs": [],
+           # the claim: the tree of EVERY application built on DefaultApplicationConfig satisfies the structural
+           # hypotheses of help_same_page_default (wiredB, for both switches); a real tree that violates them is a
+           # model/implementation disagreement
+           "wired": WIRED}
     for (toks, r) in obs["runs"]:
         if r.get("status") == 0 and not r.get("err"):
             out["runs"].append({"outside": True} if r["outside"] else {"ok": ANSI_RE.sub("", r["out"])})
